@@ -85,6 +85,35 @@ theorem view_consumers [DecidableEq (Shape ν)] [DecidableEq α] {β : Type} (v 
     C13.first_eq _ hv, (C13.elementwise_eq_materialise_zip e ei _ r hv hr).1,
     (C13.elementwise_eq_materialise_zip e ei _ r hv hr).2, C13.eq_iff _ r hv hr⟩
 
+/-- **`TensorAccess::from_source_order`, 0-dimensional views, and the copying reorderings.**
+    For a well-formed view over distinct containers: the access in the view's own order is the
+    view (same shape, same elements — so its iterators, `first`, `map`… are the view's);
+    a 0-dimensional view (e.g. every dimension selected by `TensorIndex`) yields its sole element
+    through `scalar` and `into_scalar` alike, without a panic; and `reorder` / `transpose` by *any*
+    name list panic exactly when the list is not an ordering of the view's names and otherwise
+    return the stored value of the reordered / transposed lazy view. -/
+theorem view_consumers_more (v : View ν α) (h : v.WF) (hn : v.leafIds.Nodup) (names : List ν) :
+    v.asSource.accessSourceOrder.lazy.Equiv v.asSource.lazy ∧
+    materialise v.asSource.accessSourceOrder.lazy = materialise v.asSource.lazy ∧
+    (v.shape = [] → ∃ x, v.asSource.scalar = .ok x ∧ v.asSource.intoScalar = .ok x ∧
+      (materialise v.asSource.lazy).elems = [x]) ∧
+    v.asSource.reorder names =
+      (if IsOrdering v.shape names then
+        .ok (Tensor.ofVal (materialise (reordered v.asSource.lazy names)))
+       else .panic .explicit) ∧
+    v.asSource.transpose names =
+      (if IsOrdering v.shape names then
+        .ok (Tensor.ofVal (materialise (transposed v.asSource.lazy names)))
+       else .panic .explicit) := by
+  have hv := View.asSource_valid v h hn
+  refine ⟨accessSourceOrder_equiv _, materialise_congr (accessSourceOrder_equiv _), ?_,
+    C13.reorder_eq_materialise_access v.asSource hv names,
+    C13.transpose_eq_materialise_transposeView v.asSource hv names⟩
+  intro h0
+  obtain ⟨x, hs, he⟩ := C13.scalar_eq v.asSource hv h0
+  have hi := (C13.intoScalar_eq_scalar v.asSource hv h0).1
+  exact ⟨x, hs, by rw [hi, hs], he⟩
+
 /-- **Consumers cannot tell related views apart.**  Two well-formed views over the same leaves
     with the same shape and the same designated cells (`SameView`: e.g. the two sides of
     `adaptor_laws`) are the same source: any function of a source — every consumer above, and any
